@@ -8,7 +8,8 @@ COQ_REQUIRE = ["Net", "M_Ucs"]
 COQ_CASE_TYPE = "M_Ucs.case"
 COQ_CHECK = "M_Ucs.check_case"
 OBLIGATIONS = ["max_footprint_spec", "accept_safe", "accept_safe_level", "capacity_safe",
-               "placement_inv_partial", "done_report_inv", "replica_hosts_inv", "ucs_token_conserved_partial", "ucs_token_unique"]
+               "placement_inv_partial", "done_report_inv", "replica_hosts_inv", "ucs_token_conserved_partial", "ucs_token_unique",
+               "ucs_token_invariant", "ucs_replicated_once", "ucs_no_raise", "ucs_progress", "ucs_quiescent_all_done"]
 N_QUICK, N_THOROUGH = 300, 4000
 PARALLEL = 8
 SHARD = 60
@@ -18,7 +19,8 @@ K_TARGET = 3     # UCSReplication.__init__ default, never overridden by Resilien
 
 RULE = ("random deployments of 2-6 agents with 0-2 active computations each (mostly 1-2), random symmetric "
         "computation graphs (8% asymmetric), integer footprints/capacities (tight to loose), hosting costs and "
-        "route costs (90% symmetric as the YAML loader enforces, 10% asymmetric for the assertion branches), "
+        "route costs (90% symmetric as the YAML loader enforces, 10% asymmetric for the assertion branches; 3% of "
+        "the symmetric ones with a negative default route = known finding C25-negative-route-assert), "
         "replication level k in 1..3; real ResilientAgent + UCSReplication + Discovery objects of all agents in "
         "one process, driven thread-free by per-channel-FIFO schedules from 5 policies (at most one message is "
         "ever held by a not-yet-started computation); 75% of the runs go to quiescence, 25% are cut at a random "
@@ -104,6 +106,8 @@ def gen(rng, n, tier):
                 c[2] = l
         droute = rng.randint(0, 6)
         sym = rng.random() < 0.9
+        if sym and rng.random() < 0.03:
+            droute = -rng.randint(1, 3)      # loadable (the YAML loader only checks symmetry): finding C25-negative-route-assert
         mat = [[droute] * na for _ in range(na)]
         for i in range(na):
             for j in range(i + 1, na):
@@ -473,7 +477,15 @@ def histogram(cases, obs):
     return h
 
 
+def _neg_route(c):
+    return any(a["droute"] < 0 or any(v < 0 for v in a["routes"].values()) for a in c["agents"])
+
+
 def classify(c, o, msg):
+    # a negative route cost (accepted by the YAML loader, symmetric) makes budget/spent negative:
+    # UCSReplicateMessage.__init__ asserts, the handler dies and the token of that computation is lost
+    if c["sym"] and _neg_route(c) and isinstance(msg, str) and msg.startswith("handler raised AssertionError"):
+        return "C25-negative-route-assert"
     return None
 
 
